@@ -120,3 +120,37 @@ From Coq Require Import String.
 Theorem C04_operator_names_match_source : map (fun p => (fst p, str_of (snd p))) operator_names = model_ops.
 Proof. exact operator_names_match_source. Qed.
 Print Assumptions C04_operator_names_match_source.
+
+(* ---- the semVer operators against a declarative statement of Semantic Versioning 2.0.0 (SemverSpec.v) ---- *)
+From LD Require Import SemverSpec.
+(* [is_semver x v]: x = core [ "-" pre ] [ "+" build ], core = major [ "." minor [ "." patch ] ] with numeric identifiers
+   without leading zeros, pre / build dot-separated non-empty identifiers over [0-9A-Za-z-], numeric pre-release
+   identifiers without leading zeros; v carries the numbers and the joined identifier lists *)
+Theorem C04_semver_accepts_exactly_the_grammar : forall x v, parse_semver x = Some v <-> is_semver x v.
+Proof. exact accepts_exactly_semver. Qed.
+Print Assumptions C04_semver_accepts_exactly_the_grammar.
+
+(* precedence is item 11 of the specification: numbers, then "a pre-release is lower", then identifiers left to right *)
+Theorem C04_semver_cmp_is_precedence : forall v o pv po,
+  sv_pre v = join pv -> sv_pre o = join po -> Forall pre_ident pv -> Forall pre_ident po ->
+  semver_cmp v o = prec v o pv po.
+Proof. exact cmp_is_precedence. Qed.
+Print Assumptions C04_semver_cmp_is_precedence.
+
+(* the numbers are the mathematical values for up to 18 digits ... *)
+Theorem C04_semver_numbers_exact : forall ds, all_digits ds -> (zlen ds <= 18)%Z -> numval ds = zvalue 0 ds.
+Proof. exact numval_exact. Qed.
+Print Assumptions C04_semver_numbers_exact.
+
+(* ... and not beyond: go-semver's int arithmetic wraps (open known finding of the dependency) *)
+Theorem C04_semver_overflow_refuted :
+  exists v o, parse_semver (s "18446744073709551617.0.0") = Some v /\ parse_semver (s "2.0.0") = Some o /\
+              semver_cmp v o = (-1)%Z /\ (zvalue 0 (s "18446744073709551617") > zvalue 0 (s "2"))%Z.
+Proof. exact overflow_refuted. Qed.
+Print Assumptions C04_semver_overflow_refuted.
+
+(* unparseable operands never satisfy a semVer operator *)
+Theorem C04_semver_unparseable_never_matches : forall c x i expected,
+  (forall v, ~ is_semver x v) -> semver_op c (JStr x) i expected = false.
+Proof. exact semver_unparseable_never_matches. Qed.
+Print Assumptions C04_semver_unparseable_never_matches.
